@@ -9,7 +9,7 @@
 (*   ms       the mode numbers of the group (8*server + 4*q8 + 2*lm + lp)   *)
 (*   err      the encoder reported an error                                 *)
 (*   bytes    everything that reached the connection: the value, then the   *)
-(*            sentinel SP "Z" CRLF written through the same Encoder         *)
+(*            sentinel Sentinels[sn] written through the same Encoder       *)
 (*   dec      per real decoding function f of the peer's Decoder fed with   *)
 (*            exactly these bytes: ok (its result), err (Err() or a         *)
 (*            returned error), val (the value, same forms), rest (the bytes *)
@@ -47,7 +47,7 @@ MustRead(k, v) == k # "nest" \/ NestDepth(v) < DepthCap
 
 \* nothing is demanded of a nesting that reaches the depth cap; a reader that reports
 \* success on it but hands out something else is noted
-DecSigs(k, v, d) ==
+DecSigs(k, v, d, Sentinel) ==
   LET cl == IF MustRead(k, v) THEN "dec" ELSE "info" IN
   IF d.err \/ ~d.ok THEN (IF MustRead(k, v) THEN {<<"dec", d.f, "error">>} ELSE {})
   ELSE IF d.f # "DiscardValue" /\ ~DecodedSame(k, v, d.val) THEN {<<cl, d.f, "value">>}
@@ -60,15 +60,16 @@ Judge(r) ==
   LET k == r.k
       v == r.v
       n == Len(r.bytes)
+      sl == Len(Sentinels[r.sn])
   IN IF MustRefuse(k, v)
      THEN (IF r.err /\ ~ParsesAs(k, r.bytes) THEN {}
            ELSE {<<"enc", "accepts-unrepresentable", k, WhyRefuse(k, v)>>})
      ELSE IF r.err THEN {<<"info", "enc-refuses-representable", k>>}
-     ELSE IF n < 4 \/ SubSeq(r.bytes, n - 3, n) # Sentinel THEN {<<"enc", "no-sentinel", k>>}
-     ELSE LET body == SubSeq(r.bytes, 1, n - 4)
+     ELSE IF n < sl \/ SubSeq(r.bytes, n - sl + 1, n) # Sentinels[r.sn] THEN {<<"enc", "no-sentinel", k>>}
+     ELSE LET body == SubSeq(r.bytes, 1, n - sl)
               vs == RepVerdicts({ModeOf(r.ms[i]) : i \in 1..Len(r.ms)}, k, v, body)
           IN {<<"enc", "illegal-rep", k, x>> : x \in vs \ {"ok"}}
-             \cup UNION {DecSigs(k, v, r.dec[i]) : i \in 1..Len(r.dec)}
+             \cup UNION {DecSigs(k, v, r.dec[i], Sentinels[r.sn]) : i \in 1..Len(r.dec)}
              \cup (IF vs = {"ok"} /\ ~(k = "nest" /\ v.n > 10) /\ QuotedBadUtf8(k, body)
                    THEN {<<"info", "quoted-invalid-utf8", k>>} ELSE {})
 
